@@ -111,7 +111,7 @@ def core(n):
             names = [b["name"] for b in lv["inner"] if b.get("kind") == "BindingDecl"]
         else:
             names = [lv["name"]]
-        return dict(k="forrange", t="", n=names, a=[rng, core(inner[7])])
+        return dict(k="forrange", t=ty(lv), n=names, a=[rng, core(inner[7])])
     if k == "WhileStmt":
         return mk("while")
     if k == "ForStmt":
@@ -275,6 +275,19 @@ class Tr:
                 env[names[0]] = (a1, "key")
                 env[names[1]] = (a2, "nat")
                 return b + ["do %s <- mit_deref %s %s;" % (x, self.fld("umap", st[0]), t), "let '(%s, %s) := %s in" % (a1, a2, x)]
+        if len(init) == 1 and init[0]["k"] == "ref" and init[0]["n"] in env and env[init[0]["n"]][1] in self.ITEM_PARTS \
+                and len(self.ITEM_PARTS[env[init[0]["n"]][1]]) == len(names):
+            # auto& [a, b] = x  for the item x of  for (auto& x : range): the two components of the pair.  For a range that is
+            # filled the names must alias the item (auto&, x itself bound by auto&): what is assigned to them is the result
+            x, kd = env[init[0]["n"]]
+            if kd == "fillitem":
+                if not v["t"].strip().endswith("&"):
+                    raise Unsupported("structured binding by value of an item of the range to fill")
+                env["__fillalias"] = (tuple(names), "names")
+            xs = [self.fresh("v_" + n + "_") for n in names]
+            for n, a, p in zip(names, xs, self.ITEM_PARTS[kd]):
+                env[n] = (a, p)
+            return ["let '(%s) := %s in" % (", ".join(xs), x)]
         raise Unsupported("structured binding %s" % show(v)[:200])
 
     def akind(self, t, param=False):
@@ -287,6 +300,8 @@ class Tr:
             return r
         if "lock_guard" in t:
             return "guard"
+        if re.match(r"^std::scoped_lock<[^,]*>$", t):
+            return "guard"         # std::scoped_lock on exactly ONE mutex is std::lock_guard ([thread.lock.scoped]); several: no rule
         if t.endswith("::element &") or t.endswith("::element"):
             return "eref"
         if (t.startswith("std::pair<std::__detail::_Node_iterator<") or t.startswith("std::pair<iterator,")) and t.endswith(", bool>"):
@@ -328,6 +343,9 @@ class Tr:
     # contents are the observable result of a void method (kind of the parameter -> kind of the result)
     RANGE_ELEMS = {"kvrange": ["key", "val"], "krange": ["key"], "fillrange": ["key", "optval"]}
     FILL_OUT = {"fillrange": "outvec"}
+    # for (auto& x : range) naming the whole item (a pair): the kind of x, and of its components
+    RANGE_ITEM = {"kvrange": "kvitem", "fillrange": "fillitem"}
+    ITEM_PARTS = {"kvitem": ["key", "val"], "fillitem": ["key", "optval"]}
 
     COQTY = {"nat": "nat", "bool": "bool", "key": "K", "val": "V", "optval": "option V", "allow": "allow", "peek": "bool",
              "liter": "iter", "mit": "option K", "eref": "nat", "unit": "unit", "kvrange": "list (K * V)", "krange": "list K",
@@ -376,8 +394,13 @@ class Tr:
             st1, st2 = [st[0]], [st[0]]
             b1, t1, k1 = self.E(c["a"][1], st1, env)
             b2, t2, k2 = self.E(c["a"][2], st2, env)
-            if k0 != "bool" or k1 != k2 or b1 or b2 or st1[0] != st[0] or st2[0] != st[0]:
+            if k0 != "bool" or k1 != k2 or st1[0] != st[0] or st2[0] != st[0]:
                 raise Unsupported("conditional expression %s" % show(c)[:160])
+            if b1 or b2:
+                # an arm that may be undefined (a checked read) is evaluated only when it is the selected one
+                x = self.fresh("q")
+                return b0 + ["do %s <- (if %s then (" % (x, t0), "\n".join(b1 + ["Ok %s" % t1]), ") else (",
+                             "\n".join(b2 + ["Ok %s" % t2]), "));"], x, k1
             return b0, "(if %s then %s else %s)" % (t0, t1, t2), k1
         if k == "un" and c["n"] == "pre!":
             b, t, kd = self.E(c["a"][0], st, env)
@@ -760,6 +783,12 @@ class Tr:
                 benv[n] = (self.fresh("v_" + n.strip("_") + "_"), env[n][1])
             acc_pat = self.tuple_of(bst, benv, names)
             ekinds = self.RANGE_ELEMS.get(kr)
+            whole = ekinds is not None and len(c["n"]) == 1 and kr in self.RANGE_ITEM      # for (auto& x : range), x the pair
+            if whole:
+                if fill and not c["t"].strip().endswith("&"):
+                    raise Unsupported("range-for by value over the range to fill")
+                ekinds = [self.RANGE_ITEM[kr]]
+                benv.pop("__fillalias", None)
             if ekinds is None or len(ekinds) != len(c["n"]):
                 raise Unsupported("range-for over %s binding %s" % (kr, c["n"]))
             xs = []
@@ -771,10 +800,22 @@ class Tr:
 
             def done(st_, env_):
                 if fill:
+                    if whole and ("__fillalias" not in env_ or any(n not in env_ for n in env_["__fillalias"][0])):
+                        raise Unsupported("loop over a range to fill that does not bind its item by auto& [key, value] in the loop body's block")
+                    kn, vn = env_["__fillalias"][0] if whole else c["n"]
                     env_ = dict(env_)
-                    env_["__fill"] = ("(%s ++ [(%s, %s)])" % (env_["__fill"][0], env_[c["n"][0]][0], env_[c["n"][1]][0]), env_["__fill"][1])
+                    env_["__fill"] = ("(%s ++ [(%s, %s)])" % (env_["__fill"][0], env_[kn][0], env_[vn][0]), env_["__fill"][1])
                 return "Ok %s" % self.tuple_of(st_, env_, names)
-            bt = self.S([body], bst, benv, (done, self.no_return, None))
+            stmts = [body]
+            if whole and body["k"] == "block":
+                # the statements of the body, not as a block: the names bound from the item must still be in scope in `done`
+                # (their scope, one iteration, ends with benv); they must not hide a name of an enclosing scope
+                declared = [n for d in body["a"] if d["k"] == "decls" for v in d["a"] if v["k"] in ("var", "sbind")
+                            for n in (v["n"] if v["k"] == "sbind" else [v["n"]])]
+                if any(n in benv for n in declared):
+                    raise Unsupported("a declaration in the body of the range-for that hides %s" % [n for n in declared if n in benv])
+                stmts = body["a"]
+            bt = self.S(stmts, bst, benv, (done, self.no_return, None))
             j, ns = self.fresh("j"), self.fresh("s")
             lines = br + ["do %s <- foldM (fun acc x => let '%s := acc in let '%s := x in" % (j, acc_pat, x_pat) if (names or len(xs) > 1) else
                           "do %s <- foldM (fun %s %s =>" % (j, acc_pat, x_pat),
